@@ -1202,6 +1202,7 @@ def check_C05(ctx):
         return conclude(ctx, [b])
     broken += prove(ctx, "Acv.Props.C05", C05_THEOREMS)
     broken += prove(ctx, "Acv.Props.C05Context", C05_CONTEXT_THEOREMS)
+    broken += prove(ctx, "Acv.Props.C05Message", ["Acv.C05.quoted_values_same_set", "Acv.C05.quoted_single_value_invariant_partial", "Acv.C05.quoted_values_order_sensitive"])
     try:
         lines = gen_cases("c05", 60 if ctx.quick() else 500, ctx.seed * 1000 + 21)
         impl = run_impl(lines)
